@@ -28,7 +28,12 @@ def evaluate(ctx, P, env, cases, with_model=True):
     crash_log = {i: se for (i, what, se) in crashes}
     m_outs = None
     if with_model and env.get("lhv"):
-        m_outs, mcr = core.run_lines_parallel([env["lhv"]], ops)
+        # cases judged on the C alone are not sent to the model (its answer is not compared)
+        midx = [i for i, c in enumerate(cases) if "c-only" not in c.tags]
+        mo, mcr = core.run_lines_parallel([env["lhv"]], [ops[i] for i in midx]) if midx else ([], [])
+        m_outs = ["(not sent to the model: judged on the implementation alone)"] * len(cases)
+        for i, o in zip(midx, mo):
+            m_outs[i] = o
     spec_idx = [i for i, c in enumerate(cases) if c.spec is not None]
     s_outs = {}
     if spec_idx and env.get("lhv"):
